@@ -500,7 +500,7 @@ def run(ctx):
 
 
 MANIFEST = dict(
-    text='Decides structural necessary conditions of RobustPath consistency on every path: each section append is followed by exactly one fill_widths_and_offsets, which gives every element one width and one offset entry on all four branch combinations; no builder reads the path transform (frame discipline); the four point samplers, the four intersection searches and the four parameter-query prologues are clone families evaluating only their own side, with the sampler step clamped to the section end; look-ahead iterators advance with their loops in to_polygons/element_center/spine and the trailing cursors of the parallel section/offset/width arrays jump together; the OASIS PATH half-width is half and the GDSII WIDTH the full interpolated width; SubPathType/InterpolationType/EndType switches are exhaustive (defaults frozen); RobustPath::commands consumes exactly the operands its guard and advance constants state; SubPath::gradient is, symbolically, the derivative of SubPath::eval for segment, arc, quadratic and cubic sections, under the same linear transform; the builders segment/cubic/cubic_smooth/quadratic/quadratic_smooth store exactly the documented control points in relative and absolute mode and the smooth variants are C1 (the new section's gradient at 0, from SubPath::gradient's own arm, equals the previous end gradient); the path-matrix methods translate, simple_scale, scale, simple_rotate, rotate, x_reflection and transform (both reflection states) update the 2x3 matrix so that, identically, every section point is mapped to the documented image of its previous image. Sampling accuracy, intersection convergence and cap geometry are not decided.',
+    text='Decides structural necessary conditions of RobustPath consistency on every path: each section append is followed by exactly one fill_widths_and_offsets, which gives every element one width and one offset entry on all four branch combinations; no builder reads the path transform (frame discipline); the four point samplers, the four intersection searches and the four parameter-query prologues are clone families evaluating only their own side, with the sampler step clamped to the section end; look-ahead iterators advance with their loops in to_polygons/element_center/spine and the trailing cursors of the parallel section/offset/width arrays jump together; the OASIS PATH half-width is half and the GDSII WIDTH the full interpolated width; SubPathType/InterpolationType/EndType switches are exhaustive (defaults frozen); RobustPath::commands consumes exactly the operands its guard and advance constants state; SubPath::gradient is, symbolically, the derivative of SubPath::eval for segment, arc, quadratic and cubic sections, under the same linear transform; the builders segment/cubic/cubic_smooth/quadratic/quadratic_smooth store exactly the documented control points in relative and absolute mode and the smooth variants are C1 (the gradient of the new section at 0, taken from the matching arm of SubPath::gradient, equals the previous end gradient); the path-matrix methods translate, simple_scale, scale, simple_rotate, rotate, x_reflection and transform (both reflection states) update the 2x3 matrix so that, identically, every section point is mapped to the documented image of its previous image. Sampling accuracy, intersection convergence and cap geometry are not decided.',
     note='Trusted: clang front end, gx, sa rules. The direct-builder set is discovered (methods appending to subpath_array) and compared with the confirmed list, so a new builder is reported until it is paired and listed.',
     technique='post-dominance pairing over the CFG + who-may-read effect rule + clone families with callee abstraction + look-ahead iterator rule + operand-consumption tables',
     design='§4 C08')
